@@ -254,7 +254,7 @@ func zero(t types.Type) value {
 		}
 		return s
 	case *types.Chan:
-		return chan value(nil)
+		return (*schan)(nil)
 	case *types.Map:
 		return (*omap)(nil)
 	case *types.Signature:
@@ -837,10 +837,8 @@ func unop(fr *frame, instr *ssa.UnOp, x value) value {
 	}
 	switch instr.Op {
 	case token.ARROW: // receive
-		v, ok := <-x.(chan value)
-		if !ok {
-			v = zero(instr.X.Type().Underlying().(*types.Chan).Elem())
-		}
+		ch, _ := x.(*schan)
+		v, ok := fr.i.sch().recv(ch, zero(instr.X.Type().Underlying().(*types.Chan).Elem()))
 		if instr.CommaOk {
 			v = tuple{v, ok}
 		}
@@ -979,7 +977,8 @@ func callBuiltin(caller *frame, callpos token.Pos, fn *ssa.Builtin, args []value
 		return copy(args[0].([]value), src.([]value))
 
 	case "close": // close(chan T)
-		close(args[0].(chan value))
+		ch, _ := args[0].(*schan)
+		caller.i.sch().closeChan(ch)
 		return nil
 
 	case "delete": // delete(map[K]value, K)
@@ -1022,8 +1021,11 @@ func callBuiltin(caller *frame, callpos token.Pos, fn *ssa.Builtin, args []value
 			return symStrLen(x)
 		case ropeBytes:
 			return ropeLen(x.s)
-		case chan value:
-			return len(x)
+		case *schan:
+			if x == nil {
+				return 0
+			}
+			return len(x.buf)
 		default:
 			panic(fmt.Sprintf("len: illegal operand: %T", x))
 		}
@@ -1036,8 +1038,11 @@ func callBuiltin(caller *frame, callpos token.Pos, fn *ssa.Builtin, args []value
 			return cap((*x).(array))
 		case []value:
 			return cap(x)
-		case chan value:
-			return cap(x)
+		case *schan:
+			if x == nil {
+				return 0
+			}
+			return x.cap
 		default:
 			panic(fmt.Sprintf("cap: illegal operand: %T", x))
 		}
